@@ -62,6 +62,60 @@ def parity_from_dm(rho, k):
     return tot
 
 
+def check_queries_are_pure(cut):
+    """asking a state object a question does not change the state: for one- and two-mode states on every representation, at
+    hbar = 2 and at hbar != 2, every query method (called with plain arguments) leaves the state's data bit-identical and returns
+    the same answer when asked again (a one-mode state is the case in which reduced_* hands out the state's own arrays)"""
+    xv, pv = np.linspace(-1, 1, 4), np.linspace(-1, 2, 5)
+    old_hbar = sf.hbar
+    try:
+        for hb in (2.0, 0.7):
+            sf.hbar = hb
+            for n in (1, 2):
+                for backend in ("gaussian", "bosonic", "fock"):
+                    kw = {"cutoff_dim": 8} if backend == "fock" else {}
+                    st = state(backend, n, True, **kw)
+                    calls = {
+                        "mean_photon": (0,), "quad_expectation": (0, 0.3), "fock_prob": ([0] * n,), "reduced_dm": ([0],), "parity_expectation": ([0],),
+                        "is_coherent": (0,), "is_squeezed": (0,), "squeezing": (), "displacement": (), "fidelity_vacuum": (),
+                        "fidelity_coherent": ([0.1] * n,), "wigner": (0, xv, pv), "number_expectation": ([0],), "means": (), "cov": (),
+                        "is_vacuum": (), "trace": (), "all_fock_probs": (), "dm": (), "ket": (), "weights": (), "purity": (),
+                    }
+
+                    def data():
+                        if backend == "gaussian":
+                            return [np.array(st._mu, copy=True), np.array(st._cov, copy=True)]
+                        if backend == "bosonic":
+                            return [np.array(st._weights, copy=True), np.array(st._mus, copy=True), np.array(st._covs, copy=True)]
+                        return [np.array(st._data, copy=True)]
+                    for meth, args in calls.items():
+                        if not hasattr(st, meth):
+                            continue
+                        EVAL[0] += 1
+                        before = data()
+                        try:
+                            r1 = getattr(st, meth)(*args)
+                        except (NotImplementedError, TypeError, ValueError):
+                            continue
+                        except Exception as e:
+                            bad(f"{backend} state ({n} mode(s), hbar={hb}): {meth}{args if meth != 'wigner' else '(0, xvec, pvec)'} raised {type(e).__name__}: {e}")
+                            continue
+                        after = data()
+                        if not all(np.array_equal(a, b) for a, b in zip(before, after)):
+                            bad(f"{backend} state ({n} mode(s), hbar={hb}): calling {meth} changed the state's own data")
+                            st = state(backend, n, True, **kw)
+                            continue
+                        try:
+                            r2 = getattr(st, meth)(*args)
+                            same = np.allclose(np.asarray(r1, dtype=complex), np.asarray(r2, dtype=complex), atol=1e-12) if r1 is not None else r2 is None
+                        except Exception:
+                            same = True
+                        if not same:
+                            bad(f"{backend} state ({n} mode(s), hbar={hb}): {meth} answers differently when asked twice")
+    finally:
+        sf.hbar = old_hbar
+
+
 def check_wigner(cut):
     """Wigner function of every mode of a correlated state on a grid whose x and p axes DIFFER (range, spacing, number of
     points): the same array on the gaussian, bosonic and fock representation, equal to the closed form of the reduced
@@ -136,6 +190,7 @@ if __name__ == "__main__":
     try:
         check_backend_state_subsets(cut)
         check_wigner(cut)
+        check_queries_are_pure(cut)
     except Exception:
         import traceback
         traceback.print_exc()
